@@ -31,9 +31,9 @@ def make(pid, check_program, nontrivial, extra_feats=None):
     """check_program(src, arg_idx, depth, max_runs, recorded) -> (status, sig, msg, stats)
     nontrivial(status, feats, stats) -> bool"""
 
-    def run(spec):
+    def build(col, spec, origin="hyp"):
+        """the @given test of one shard (called by run(); driven by libFuzzer through fuzz_one_input in fuzz_child)"""
         _, seed, shard, examples, depth, max_runs, feats_off, probe = spec
-        col = Collector()
         recorded = recorded_features(pid)
         feats = dict(extra_feats or {})
         feats.update({k: False for k in feats_off})
@@ -52,15 +52,29 @@ def make(pid, check_program, nontrivial, extra_feats=None):
                     col.count("n_" + k, v)
             if status == "fail":
                 col.fail(sig, msg, dict(src=src, arg_idx=list(arg_idx), depth=depth, max_runs=max_runs), len(src))
-            classes = sorted(t_ for t_ in f if not t_.startswith("depth")) + [status] + (["probe:" + probe] if probe else ["main"])
+            classes = sorted(t_ for t_ in f if not t_.startswith("depth")) + [status] + (["probe:" + probe] if probe else ["main"]) + ["origin:" + origin]
             col.case(src, len(src), nontrivial(status, f, stats), sample=dict(src=src, status=status), classes=classes)
 
-        t()
+        return t
+
+    def run(spec):
+        if spec[0] == "pfuzz":
+            from .sweep import run_fuzz
+
+            return run_fuzz(spec)
+        col = Collector()
+        build(col, spec)()
         return col.result()
 
-    def plan_(tier, seed, quick=(120, 8, 40, 40, 2), thorough=(1300, 12, 160, 400, 4)):
+    run.build = build
+
+    def plan_(tier, seed, quick=(120, 8, 40, 40, 2), thorough=(1300, 12, 160, 400, 4), fuzz_mod=None):
         off = recorded_features(pid)
         specs = []
+        if fuzz_mod:
+            # coverage-guided campaigns over the same grammar (constructs of recorded findings excluded as in the main shards)
+            d_, r_ = (quick[1], quick[2]) if tier == "quick" else (thorough[1], thorough[2])
+            specs += [("pfuzz", fuzz_mod, seed, s, 250 if tier == "quick" else 6000, d_, r_, off) for s in range(8 if tier == "quick" else 16)]
         ex, depth, runs, pex, pshards = quick if tier == "quick" else thorough
         nsh = 16 if tier == "quick" else 32
         specs += [("p", seed, s, ex, depth, runs, off, None) for s in range(nsh)]
